@@ -32,9 +32,9 @@ Definition ex_uout : uout := Build_uout EConway 6 false (AShelley 1 (PKey 5)) (V
 Definition ex_out : tout := Build_tout false (AShelley 1 (PKey 5)) (VCoin 900) 1 DNone false.
 Definition ex_tx : tx :=
   Build_tx 6 100 [(1, 0)] [ex_out] 100 None None None None None None None None None None None []
-           None None (Some [Build_vkw 32 64 5 true]) None None None None None None (Ok tt) 0 0 0 [] [].
+           None None (Some [Build_vkw 32 64 5 true]) None None None None None None None (Build_cstate [] [] [] [] [] [] []) None [] [].
 Definition ex_env : env :=
-  Build_env (Build_params 6 0 0 16384 0 0 0 1 5000 150 3 0 0 true true true 0 0) 764824073 5 1 true.
+  Build_env (Build_params 6 0 0 16384 0 0 0 1 5000 150 3 0 0 true true true 0 0 0 0) 764824073 5 1 true 0 0.
 Example accepted_example :
   wf_params (e_pp ex_env) = true /\ validate true ex_tx [((false, 1, 0), ex_uout)] ex_env = Ok tt.
 Proof. split; reflexivity. Qed.
